@@ -72,6 +72,8 @@ def run_job(job):
     else:
         for length in range(0, 9):
             yield {"kind": "conv_block", "length": length}
+        for length in range(0, 7):
+            yield {"kind": "conv_block", "length": length, "elements": "tuples"}
 
 
 def contained_pairs(bits):
@@ -221,6 +223,9 @@ def check(case):
     if kind == "conv_block":
         length = case["length"]
         parent = [f"e{i}" for i in range(length)]
+        if case.get("elements") == "tuples":
+            # elements that are themselves tuples (a subsequence of one such element is a list holding that tuple)
+            parent = [("e", i) for i in range(length)]
         evals = 0
         if subseq_complete(parent) != (1 << length) - 1:
             raise Violation("subseq_complete", observed=subseq_complete(parent), expected=(1 << length) - 1)
@@ -232,6 +237,12 @@ def check(case):
             back = mask_from_subseq(exp, parent)
             if back != mask:
                 raise Violation("mask_from_subseq", observed=back, expected=mask, extra={"subseq": exp})
+            # elements are matched by equality: a subsequence made of equal but distinct objects (strings built at run
+            # time, rebuilt tuples) is the same subsequence
+            twin = [("".join(list(x)) if isinstance(x, str) else tuple(list(x))) for x in exp]
+            back = mask_from_subseq(twin, parent)
+            if back != mask:
+                raise Violation("mask_from_subseq.equal-but-distinct-objects", observed=back, expected=mask, extra={"subseq": exp})
             if subseq_from_mask(mask_from_subseq(exp, parent), parent) != exp:
                 raise Violation("roundtrip.subseq", observed="differs", expected=exp)
             evals += 2
